@@ -70,7 +70,9 @@ package dagsync
 //@   loop 1: iteration ghost removed := false
 //@   at call close#2: assert arg0 == ch && !removed
 //@   at call close#2: ghost removed := true
-//@   loop 1: iteration ensures itercount("recv:rmEventChan") == 1 ==> (!removed && len(outEventsChans) == n0) || (removed && len(outEventsChans) == n0 - 1 && chansNot(outEventsChans, ch))
+//@   loop 1: iteration ensures itercount("recv:rmEventChan") == 1 && !removed ==> len(outEventsChans) == n0
+//@   loop 1: iteration ensures itercount("recv:rmEventChan") == 1 && removed ==> len(outEventsChans) == n0 - 1
+//@   loop 1: iteration ensures itercount("recv:rmEventChan") == 1 && removed ==> chansNot(outEventsChans, iterarg("recv:rmEventChan", 1))
 //@   loop 1: iteration ensures itercount("recv:rmEventChan") == 0 ==> !removed
 //@   loop 3: iteration ensures itercount("send:ch") == 1 && iterarg("send:ch", 0) == chanRef(outEventsChans[rangeindex]) && iterarg("send:ch", 1) == str(event.Cid.str) && iterarg("send:ch", 2) == str(event.PeerID) && iterarg("send:ch", 3) == event.Count
 //@   loop 1: invariant subOK(s) && chansNot(outEventsChans, s.inEvents)
